@@ -1,7 +1,8 @@
 """C19 — library calls never modify caller-owned arguments; results documented as new do not alias them.
 
 Static half (regenerated on every run): harness/effects/translate.py turns every public function and
-method of the inventoried modules (inventory taken from the modules' own ASTs) into the effect IR;
+method of the inventoried modules (inventory taken from the modules' own ASTs) into the effect IR, and every public class
+into its call-history programs (constructor / classmethod constructor, then any sequence of its members on the object);
 the Lean analysis `Pew.Effects.ana` (sound by theorems mayWrite_sound / mayAlias_sound) is run on it
 by the driver; its may-write / may-alias report must stay inside the documented mutators / the
 reviewed alias baseline.  Dynamic half: the same function is called with generated arguments
@@ -844,12 +845,21 @@ class C19(Prop):
     id = "C19"
     anchored = ["src/pewlib/" + m.split("pewlib.")[1].replace(".", "/") + ".py" for m in T.INVENTORY_MODULES]
     cases = {"quick": 500, "thorough": 6000}
-    rule = ("targeted: every translator regression case (harness/effects/tests: synthetic source -> real translator -> real Lean "
+    rule = ("targeted: the static obligation of every call-history program (one per public class and producer: constructor / "
+            "classmethod constructor; `Pew.Effects.history`: construct, then any sequence of the public methods, property getters "
+            "and setters on the object) and every two-call history `construct; member` run for real with value AND slot-identity "
+            "snapshots of everything the caller passed (mutators and setters with 4, thorough 12, argument seeds); "
+            "every translator regression case (harness/effects/tests: synthetic source -> real translator -> real Lean "
             "analysis, plus a real run of the synthetic function); one case per inventoried public function/method (static "
             "obligation for every parameter + one dynamic call); 4 (thorough: 24) calls with overlapping / identical array "
             "arguments for every function with two ndarray parameters; 24 (thorough: 149) more for every function with a pair in "
-            "UNPROVED_STATIC (dynamic-only pairs); then random (function, argument seed) pairs, 15% of those that can with "
-            "overlapping arguments; non-trivial = the call actually ran pewlib code with at least one array/list/dict/object "
+            "UNPROVED_STATIC (dynamic-only pairs); then random cases: 80% (function, argument seed) pairs, 15% of those that can "
+            "with overlapping arguments, 20% call histories of 1-4 random members on one object.  On every argument seed but 0 the "
+            "built arguments are varied by general classes: sequence-form (every list / tuple also as tuple, list, ONE ndarray, list "
+            "of 1-d arrays), scalars-from-data (float parameters = minimum / maximum / first element of the first array argument), "
+            "defaults-used (parameters with a default left out), malformed-argument (one argument of the wrong shape / dtype / "
+            "length: calls that raise half-way), generators consumed only partly; every result is also EDITED (all bytes "
+            "inverted, containers extended) with the arguments compared afterwards; non-trivial = the call actually ran pewlib code with at least one array/list/dict/object "
             "argument; distinct by (function, argument seed)")
     trusted = ["harness/effects/translate.py (Python AST -> effect IR with a heap) and its tables of NumPy/stdlib calls returning "
                "fresh memory, views, or writing an argument (reviewed against the installed NumPy; positional `out` parameters "
@@ -884,6 +894,15 @@ class C19(Prop):
                "translation is validated by the regression cases and by the dynamic snapshot run: every observed write / "
                "sharing must have been predicted by the analysis"]
     assumptions = ["writes performed inside C extensions on buffers the table calls fresh are not visible",
+                   "call histories: the history program of a class has one parameter per argument of the producer and of every "
+                   "member; a real history passing the SAME object in two calls, or passing something the object returned back "
+                   "into it, is outside its start state (like overlapping arguments of one call); a member that raised is the "
+                   "last call of the histories the theorem covers (`Calls.raised`), the dynamic histories go on after a raise; "
+                   "results of members that are documented views of what the object holds (Laser.get of one element) alias the "
+                   "constructor's argument while `Laser(arr).data is arr`: recorded (DESIGN 9.5), the history obligation is "
+                   "about writes",
+                   "module-level state (globals, class attributes, mutable default arguments) is one object G of the IR; what "
+                   "may write it / return part of it is listed in the evidence (recorded only: G is not an argument)",
                    "UNPROVED_STATIC in harness/c19.py lists the (function, parameter) pairs that rest on the dynamic calls alone "
                    "(user callbacks, an open file handle's position, results holding the caller's immutable Path/tuple objects, "
                    "boolean-mask indexing); they are not counted as static obligations and permit nothing at run time",
@@ -925,7 +944,7 @@ class C19(Prop):
                 types = {nm: T.annotation_type(prog, mod, a) for nm, a in sig.items() if a is not None}
                 inv[q] = {"name": q, "np": n, "params": pnames, "ir": ir, "diag": list(tr.diag), "sig": sig, "module": mod,
                           "kind": "constructor" if ctor else ("method" if ck else "function"), "types": types,
-                          "defaults": defaults}
+                          "defaults": defaults, "gvar": tr.gvar}
             inv["__plain_fields__"] = [[k[0], k[1], f, t] for (k, f), t in sorted(prog.plain_fields.items())]
             hidx = {}
             for mod_ in T.INVENTORY_MODULES:
@@ -1031,10 +1050,55 @@ class C19(Prop):
             out.append(f"{owner}({pname})")
         return out
 
+    @staticmethod
+    def _with_module_state_as_parameter(ir, gvar, index):
+        """the same program with the object standing for the module-level state bound as parameter `index` (it is bound
+        exactly once, to a fresh object, right after the real parameters)"""
+        hit = []
+
+        def walk(s):
+            if s[0] == "bind" and s[1] == gvar and s[2][0] == "fresh" and not hit:
+                hit.append(1)
+                return ["bind", gvar, ["param", index]]
+            if s[0] == "seq":
+                return ["seq", [walk(t) for t in s[1]]]
+            if s[0] == "branch":
+                return ["branch", walk(s[1]), walk(s[2])]
+            if s[0] == "loop":
+                return ["loop", walk(s[1])]
+            return s
+        out = walk(ir)
+        return out if hit else None
+
+    def module_state_effects(self, d):
+        """RECORDED ONLY (no verdict: module-level state is not an argument): the functions that, by the same analysis with
+        the module-level state `G` (module globals, class attributes, mutable default arguments) as one more region, may
+        write it or return (part of) it — a cache handing the same mutable object to two callers would show up here"""
+        writes, returns = [], []
+        for name, f in sorted(self.funcs().items()):
+            if f.get("gvar") is None or any("UNKNOWN FUNCTION" in x for x in f["diag"]):
+                if any("UNKNOWN FUNCTION" in x for x in f["diag"]):
+                    writes.append(name + " (unknown function)")
+                    returns.append(name + " (unknown function)")
+                continue
+            ir = self._with_module_state_as_parameter(f["ir"], f["gvar"], f["np"])
+            if ir is None:
+                continue
+            rep = d.call("c19.analyse", np=f["np"] + 1, prog=ir)
+            if f["np"] in rep["write"]:
+                writes.append(name)
+            if f["np"] in rep["ret"]:
+                returns.append(name)
+        return writes, returns
+
     def extra_evidence(self):
         """the per-(function, parameter) obligations computed by the Lean analysis on the regenerated IR"""
         d = core.Driver()
         try:
+            import time as _t
+            _t0 = _t.time()
+            ms_w, ms_r = self.module_state_effects(d)
+            ms_t = round(_t.time() - _t0, 2)
             n = ok = pairs = 0
             broken, unknown_calls, unproved, stale = [], [], [], []
             for name, f in sorted(self.funcs().items()):
@@ -1087,6 +1151,8 @@ class C19(Prop):
                              "translator_regression_failures": reg_fail[:50],
                              "allowed_writes": [f"{k[0]}({k[1]}) [{v[0]}]: {v[1]}" for k, v in sorted(ALLOWED_WRITES.items())],
                              "fields_typed_plain": len(self.inv()["__plain_fields__"]),
+                             "module_state_may_be_written_by (recorded only)": ms_w,
+                             "results_may_hold_module_state (recorded only)": ms_r, "module_state_analysis_s": ms_t,
                              "history_programs": len(self.history_index()), "history_parameter_obligations": hn,
                              "history_obligations_broken": hbroken[:50], "history_programs_unknown": hunknown[:20],
                              "constructor_retained_parameters": retained,
